@@ -85,15 +85,20 @@ TOLERANCES = {
     'reference norm': '| |x|_ref - space.norm(x) | <= 64*eps*n*|x|',
 }
 ASSUMPTIONS = [
-    'real float64 spaces with exponent 2 (the proximal needs a Hilbert '
-    'space); complex and float32 spaces are outside the generator',
+    'real float64 and float32 spaces with exponent 2 (the proximal needs a '
+    'Hilbert space), one dtype per product space; complex spaces are '
+    'outside the generator; every tolerance is stated in eps(dtype) of the '
+    'space under test',
     'parameters inside the documented convex range (lam > 0, sigma > 0, '
     'gamma >= 0, a >= 0, positive priors); values outside are generated only '
     'as expected rejections',
     'x entries bounded by 210 (7*30); for exponential-type functionals '
     '(KL cross entropy and its conjugate) |x| <= 7, sigma >= 0.25, scalings '
     'in [0.5, 4], at most one calculus rule on top, so that '
-    'exp(x/(sigma*lam)) does not overflow',
+    'exp(x/(sigma*lam)) does not overflow; the same narrow range for the '
+    'KL family on float32 spaces, where the closed form (x - s + sqrt((x - '
+    's)^2 + 4 s g))/2 cancels completely once |x|^2 eps32 > s g and '
+    'returns the boundary point 0 (f = inf)',
     'SeparableSum lives on the unweighted product of the summands domains; '
     'NuclearNorm on unweighted (base^m)^n with weighted base',
     'the value of a default convex conjugate is never needed: its proximal '
@@ -139,6 +144,7 @@ ZERO_SCALE_OK = ('f_l1', 'f_l2', 'f_l2sq', 'f_l1l2', 'f_linf', 'f_huber',
                  'GroupL1Norm', 'LpNorm', 'ConstantFunctional')
 EXP_TYPE = ('f_cc_kl_ce', 'KullbackLeiblerCrossEntropy',
             'KullbackLeiblerCrossEntropyConvexConj')
+KL_FAMILY = ('f_cc_kl', 'KullbackLeibler', 'KullbackLeiblerConvexConj')
 LEAF_WKINDS = zoo.LEAF_KINDS
 
 
@@ -170,7 +176,7 @@ def _wrap(draw, fd, e, rsp, mode, exp_type, el_ok):
                    fd['params']['p'] not in (1.0, 2.0)) and
               not (e.name == 'Huber' and (fd['params']['gamma'] <= 0 or
                                           rsp.parts is not None)))
-        if not ok:
+        if not ok or exp_type:
             rule = 'translated'
     if rule == 'argscale_el' and not (
             direct and el_ok and
@@ -281,7 +287,12 @@ def _tree_on(draw, e, kind, sizes, wkinds=None, max_depth=3,
     rsp = R.RSpace(sd)
     fd = draw(_leaf_tree(e, rsp, force))
     mode = e.mode
-    exp_type = e.name in EXP_TYPE
+    # narrow numerical range: exponential-type functionals (overflow of
+    # exp) and, on float32 spaces, the KL family (the closed form
+    # (x - s + sqrt((x - s)^2 + 4 s g))/2 cancels completely once
+    # |x|^2 eps(dtype) > s g and returns the boundary point)
+    exp_type = e.name in EXP_TYPE or (
+        e.name in KL_FAMILY and zoo.dtype_of(sd) == 'float32')
     site = e.site(fd['params'])
     depth = (force_depth if force_depth is not None else
              draw(st.sampled_from([0, 0, 0, 1, 1, 2, 3])))
@@ -680,10 +691,12 @@ def _run_case(desc):
 def _negative_scaling_of_linear(desc, v):
     """The library itself produced ``s * f`` with s < 0 for a functional it
     flags as linear (f * s, or the conjugate rule (f * s)* = f* * (1/s)) and
-    then refused its proximal, although the descriptor contains no negative
-    left multiplication."""
+    then refused its proximal (or, one step later, its convex conjugate),
+    although the descriptor contains no negative left multiplication."""
     return ('|crash:ValueError|' in v.signature and
-            'scaled with a negative value' in v.detail and
+            ('scaled with a negative value' in v.detail or
+             'scaling with nonpositive values have no convex conjugate'
+             in v.detail) and
             desc['mode'] == 'functional' and
             zoo.expected_rejection(desc['func']) is None)
 
